@@ -2718,7 +2718,9 @@ class EquilibriumRegion(PsiContour):
             dtype=float,
         )
         scheck = sfunc_list[0][0](indices)
-        if numpy.any(scheck[1:] <= scheck[:-1]):
+        # Note: written so that NaN values (e.g. from a failed extrapolation into the guard
+        # cells) are also rejected
+        if not numpy.all(scheck[1:] > scheck[:-1]):
             from matplotlib import pyplot
 
             print("at global xind", xind)
@@ -2730,7 +2732,7 @@ class EquilibriumRegion(PsiContour):
             pyplot.axhline(total_distance)
             pyplot.legend()
             pyplot.show()
-            decreasing = numpy.where(scheck[1:] <= scheck[:-1])[0] + 1
+            decreasing = numpy.where(~(scheck[1:] > scheck[:-1]))[0] + 1
             raise ValueError(
                 f"In region {self.name} combined spacing function is decreasing at "
                 f"indices {decreasing} on contour of length {len(self)}. It may help to "
